@@ -39,6 +39,8 @@ struct ParseRecord { // the jansson parse call during which an injected failure 
 	std::string bytes;
 	size_t flags = 0;
 	uint64_t k_rel = 0; // index of the failed request relative to parser entry (1-based)
+	uint64_t delta = 0; // a second request this far behind also fails (pair mode), 0 = none
+	bool from = false;  // every later request fails too
 	std::string entry;
 };
 
@@ -47,6 +49,8 @@ struct DumpRecord { // the json_dumps call during which an injected failure fell
 	std::string text; // what the same dump returns without a fault
 	size_t flags = 0;
 	uint64_t k_rel = 0;
+	uint64_t delta = 0;
+	bool from = false;
 };
 
 struct SimAlloc {
@@ -57,6 +61,7 @@ struct SimAlloc {
 	// fault window (armed only between entry to and return from a library call)
 	bool armed = false;
 	int64_t fail_at = 0;     // k-th request in this window returns NULL (1-based); 0 = none
+	int64_t fail_at2 = 0;    // a second failing request in the same window (pairs of faults); 0 = none
 	bool fail_from = false;  // every request from k on fails
 	uint64_t win_reqs = 0;   // requests seen in the current window
 	uint64_t fired = 0;      // faults fired in the current window
@@ -92,10 +97,11 @@ void sim_harness_free(void *p);        // free memory handed out by libjwt/janss
 
 // Arms the fault window for the duration of one library call.
 struct Armed {
-	Armed(int64_t fail_at = 0, bool from = false)
+	Armed(int64_t fail_at = 0, bool from = false, int64_t fail_at2 = 0)
 	{
 		g_alloc.armed = true;
 		g_alloc.fail_at = fail_at;
+		g_alloc.fail_at2 = fail_at2;
 		g_alloc.fail_from = from;
 		g_alloc.win_reqs = 0;
 		g_alloc.fired = 0;
@@ -104,6 +110,7 @@ struct Armed {
 	{
 		g_alloc.armed = false;
 		g_alloc.fail_at = 0;
+		g_alloc.fail_at2 = 0;
 		g_alloc.fail_from = false;
 	}
 	uint64_t reqs() const { return g_alloc.win_reqs; }
